@@ -474,3 +474,30 @@ def r20h(prog, rep):
             rep.violation('R20h', k, where=bad[0], fn=f.name, detail='%s, so a page that no hint names is never visited' % bad[1])
         else:
             rep.ok('R20h', k, fn=f.name, where=f.where(ranges[0][1]), detail='%d page range(s): from 1 up to num_pages, contiguous' % len(ranges))
+        # R20i: what is collected from those ranges reaches the returned groups whole: on the way from the range to the group list no
+        # step may leave pages out (chunks_exact drops the tail, take / truncate / step_by / skip cut), apart from the one filter that
+        # removes the pages a hint already named
+        k2 = '%s|remainder-pages-all-reach-a-group' % f.name
+        CUT = {'chunks_exact', 'rchunks_exact', 'take', 'take_while', 'skip', 'skip_while', 'step_by', 'truncate', 'drain', 'pop', 'remove',
+               'swap_remove', 'split_off', 'dedup', 'retain', 'windows', 'nth', 'last', 'first', 'map_while', 'split_at', 'split_first', 'split_last'}
+        seeds = {st['dst']['l'] for (_, st) in ranges}
+        t = mir.forward_taint(f, seeds)
+        cuts = [c for c in f.calls if c.short in CUT and any(a in t for a in c.arg_locals()) and
+                (c.decl.startswith('std::iter::') or 'slice' in c.callee or 'vec::Vec' in c.callee)]
+        filters = [c for c in f.calls if c.short in ('filter', 'filter_map') and c.decl.startswith('std::iter::') and any(a in t for a in c.arg_locals())]
+        odd_filters = []
+        for c in filters:
+            g2 = mir._closure_fn_of(prog, f, c.args[1]) if len(c.args) > 1 else None
+            if g2 is None or not any(x.short == 'contains' and re.search(r'(HashSet|BTreeSet)<u32', g2.ty.get(x.arg_local(0), '') or '') for x in g2.calls):
+                odd_filters.append(c)
+        sinks = [c for c in f.calls if c.short in ('push', 'extend', 'append', 'insert') and re.search(r'Vec<std::vec::Vec<u32', f.ty.get(c.arg_local(0), '') or '')
+                 and any(a in t for a in c.arg_locals()[1:])]
+        if cuts or odd_filters:
+            c = (cuts or odd_filters)[0]
+            rep.violation('R20i', k2, where=c.where(), fn=f.name,
+                          detail='the pages no hint names pass through %s() on their way into the page groups: the pages it leaves out are in no group '
+                                 'and are never loaded or searched' % c.short)
+        elif sinks:
+            rep.ok('R20i', k2, where=sinks[0].where(), fn=f.name, detail='the remainder pages are added to the groups without a step that can leave pages out')
+        else:
+            rep.violation('R20i', 'anchor-lost:remainder-sink', fn=f.name, detail='anchor lost: where the remainder pages are added to the page groups')
